@@ -395,7 +395,7 @@ package git
 //gvc:  opt frame args
 //gvc:  results err
 //gvc:  requires nn: w != nil && o != nil && w.r != nil
-//gvc:  ensures rollback: err != nil && calls("updateHEAD") >= 1 && lastres("updateHEAD") == nil && calls("Reset") >= 1 && lastres("Reset") != nil ==> calls("SetReference") + calls("RemoveReference") >= 1
+//gvc:  ensures rollback: err != nil && now(curErr) == nil && calls("updateHEAD") >= 1 && lastres("updateHEAD") == nil && calls("Reset") >= 1 && lastres("Reset") != nil ==> calls("SetReference") + calls("RemoveReference") >= 1
 //gvc:  sink SetReference requires saved: arg0 == prev && prev != nil
 //gvc:  sink RemoveReference requires unborn: prev == nil && strid(arg0) == strid(prevName)
 //gvc:end
